@@ -69,6 +69,7 @@ class Ctx:
         self.solver_calls = 0
         self.inputs = {}  # name -> declared symbolic input (for model extraction)
         self.notes = []
+        self.deferred = []  # definitional facts used only when proving (not for path feasibility)
         # per path
         self.prefix = []
         self.pos = 0
@@ -82,6 +83,7 @@ class Ctx:
         self.pos = 0
         self.fresh = itertools.count()
         self.inputs = {}
+        self.deferred = []
         self.solver.reset()
         self.solver.set("timeout", self.timeout_ms)
         self.paths += 1
@@ -137,13 +139,23 @@ class Ctx:
             self.ended_by_assume += 1
             raise PathEnd("assume infeasible")
 
+    def defer_fact(self, cond):
+        """definition of an opaque value: over-approximates feasibility (sound for proofs),
+        taken into account in every obligation and therefore in every counter-model"""
+        self.deferred.append(cond)
+
     def add_fact(self, cond):
         """add a definitional fact (no feasibility check)"""
-        self.solver.add(cond)
+        if getattr(self, "defer_mode", False):
+            self.deferred.append(cond)
+        else:
+            self.solver.add(cond)
 
     def prove(self, label, cond, info=None):
         """Obligation `cond` under the current path condition. Returns status."""
         path = "".join("T" if d else "F" for d in self.prefix[: self.pos])
+        if isinstance(cond, bool) and not cond and self.deferred:
+            cond = z3.BoolVal(False)  # the path may be infeasible once the opaque definitions are used
         if isinstance(cond, bool):
             st = "discharged" if cond else "refuted"
             ob = Obligation(label, st, path, "closed-evaluation", 0.0,
@@ -159,14 +171,31 @@ class Ctx:
         if z3.is_true(cond):
             self.obligations.append(Obligation(label, "discharged", path, "simplifier", 0.0, None, None))
             return "discharged"
-        r = self._check(z3.Not(cond))
+        m_def = None
+        r = self._check(z3.Not(cond)) if self.deferred else None
+        if r == z3.unsat:
+            pass  # already valid without unfolding the opaque definitions
+        elif self.deferred:
+            # one-shot solver: the non-incremental pipeline eliminates the opaque definitions
+            s2 = z3.Solver()
+            s2.set("timeout", self.timeout_ms)
+            s2.add(self.solver.assertions())
+            s2.add(self.deferred)
+            s2.add(z3.Not(cond))
+            r = s2.check()
+            self.solver_calls += 1
+            self.solver_time += time.time() - t0
+            m_def = s2.model() if r == z3.sat else None
+        else:
+            r = self._check(z3.Not(cond))
+            m_def = None
         dt = time.time() - t0
         if r == z3.unsat:
             self.obligations.append(Obligation(label, "discharged", path, "z3", dt, None, None))
             self.solver.add(cond)
             return "discharged"
         if r == z3.sat:
-            m = self.solver.model()
+            m = m_def if m_def is not None else self.solver.model()
             ob = Obligation(label, "refuted", path, "z3", dt, self._model_inputs(m), None)
             if info:
                 try:
@@ -447,6 +476,21 @@ class SymInt:
 
     # -- division (Python floor semantics)
     def _divmod(self, o):
+        if isinstance(o, int) and not isinstance(o, bool) and o > 0:
+            # division by a positive constant: no division circuit
+            if o & (o - 1) == 0:
+                k = o.bit_length() - 1
+                return self >> k, self & (o - 1)
+            qlo, qhi = self.lo // o, self.hi // o
+            if qlo == qhi:
+                return qlo, self - o * qlo
+            c = ctx()
+            qv = z3.BitVec("divq!%d" % next(c.fresh), W)
+            q = SymInt(qv, qlo, qhi)
+            r = self - q * o
+            # q, r are uniquely determined by these definitional facts
+            c.add_fact(z3.And(qv >= qlo, qv <= qhi, r.t >= 0, r.t < o))
+            return q, SymInt(r.t, 0, o - 1)
         o = SymInt.lift(o)
         if o is None:
             return None
@@ -818,6 +862,15 @@ class SymBytes:
 
     def __repr__(self):
         return "SymBytes(%d)" % len(self.items)
+
+    @property
+    def nbytes(self):
+        return len(self.items)
+
+    def decode(self, *a, **k):
+        if any(isinstance(b, SymInt) for b in self.items):
+            raise Unsupported("decode of symbolic bytes")
+        return bytes(self.items).decode(*a, **k)
 
     def hex(self):
         raise Unsupported("hex of symbolic bytes")
